@@ -21,7 +21,8 @@ ENTRIES = [
     B('or-replace', "query = insert(QueuedURL).prefix_with('OR IGNORE').values(bind_values)", "query = insert(QueuedURL).prefix_with('OR REPLACE').values(bind_values)", 'C01-D1', S),
     B('raw-link', "            item_session.add_child_url(url_info.url, inline=link_context.inline,", "            item_session.add_child_url(link_context.link, inline=link_context.inline,", 'C01-D2', R),
     B('raw-url-attr', "            item_session.add_child_url(url_info.url, inline=link_context.inline,", "            item_session.add_child_url(url_info.raw, inline=link_context.inline,", 'C01-D2', R),
-    B('ftp-raw-link', "self._item_session.add_child_url(linked_url_info.url, link_type=LinkType.directory)", "self._item_session.add_child_url(linked_url, link_type=LinkType.directory)", 'C01-D2', P),
+    # benign since listing names are quoted before the join (/repo 477c489): the joined string is the normal form already
+    N('ftp-joined-link-is-normal', "self._item_session.add_child_url(linked_url_info.url, link_type=LinkType.directory)", "self._item_session.add_child_url(linked_url, link_type=LinkType.directory)", P),
     B('add-url-alters', "        add_url_info = AddURLInfo(url, url_properties, url_data)", "        add_url_info = AddURLInfo(url_info.raw, url_properties, url_data)", 'C01-D2', I),
     B('checkout-no-mark', "            url_record.status = Status.in_progress.value\n\n            return url_record.to_plain()", "            return url_record.to_plain()", 'C01-D3', S),
     B('checkout-mark-todo', "            url_record.status = Status.in_progress.value\n\n            return url_record.to_plain()", "            url_record.status = Status.todo.value\n\n            return url_record.to_plain()", 'C01-D3', S),
